@@ -306,12 +306,27 @@ def _libenc_obj(k: int):
         obj = cls(header=hdr, sec_trailer=trailer, max_xmit_frag=4280 + k, max_recv_frag=4280, assoc_group=k * 31, sec_addr=("9" * (k % 6)) if k % 7 != 3 else ("\\PIPE\\ls\u00e4ss", "\u20ac1", "n\u00e4\u00e4", "\U0001F600")[(k // 7) % 4], results=res)
     elif ptype == rpc.PacketType.RESPONSE:
         stub = bytes(rng.randrange(256) for _ in range((k * 4) % 64))
-        obj = rpc.Response(header=hdr, sec_trailer=trailer, alloc_hint=len(stub), context_id=k % 9, cancel_count=k % 3, stub_data=stub)
+        # (alloc_hint is advisory: 0 = "not specified", smaller or larger than the stub are all legal field values)
+        obj = rpc.Response(header=hdr, sec_trailer=trailer, alloc_hint=(len(stub), 0, 1, 0xFFFFFFFF, len(stub) + 7)[(k // 5) % 5], context_id=k % 9, cancel_count=k % 3, stub_data=stub)
     elif ptype == rpc.PacketType.FAULT:
-        obj = rpc.Fault(header=hdr, sec_trailer=trailer, alloc_hint=0, context_id=k % 9, cancel_count=0, status=0x1C010000 + k, flags=rpc.FaultFlags(k % 2), stub_data=b"")
+        # (status codes with the top bit set: HRESULTs / NTSTATUS values as Windows servers return them)
+        obj = rpc.Fault(header=hdr, sec_trailer=trailer, alloc_hint=(0, 24, 0xFFFFFFFF)[(k // 5) % 3], context_id=k % 9, cancel_count=0,
+                        status=(0x1C010000 + k, 0x80070005, 0xC0000022, 0xFFFFFFFF, 0, 0x80000000)[(k // 5) % 6], flags=rpc.FaultFlags(k % 2), stub_data=b"")
     else:
         obj = rpc.BindNak(header=hdr, sec_trailer=None, reject_reason=k % 11, versions=[(5, j) for j in range(k % 3)])
     return obj, hdr, drep, ptype, trailer
+
+
+def _body_fields(o) -> tuple:
+    """The field values of a PDU body (everything but the header, whose frag_len is the sender's job)."""
+    names = {"Response": ("alloc_hint", "context_id", "cancel_count", "stub_data"), "Fault": ("alloc_hint", "context_id", "cancel_count", "status", "flags", "stub_data"),
+             "BindNak": ("reject_reason", "versions"), "BindAck": ("max_xmit_frag", "max_recv_frag", "assoc_group", "sec_addr", "results"),
+             "AlterContextResponse": ("max_xmit_frag", "max_recv_frag", "assoc_group", "sec_addr", "results")}.get(type(o).__name__, ())
+    out = []
+    for n_ in names:
+        v = getattr(o, n_)
+        out.append(bytes(v) if isinstance(v, (bytes, bytearray, memoryview)) else (int(v) if isinstance(v, int) else repr(v)))
+    return tuple(out)
 
 
 def _run_libenc_rest(case, fl, k, obj, hdr, drep, ptype, raw, world, ctxs) -> dict:
@@ -338,6 +353,8 @@ def _run_libenc_rest(case, fl, k, obj, hdr, drep, ptype, raw, world, ctxs) -> di
         again[8:10] = len(again).to_bytes(2, "little")
         if bytes(again) != raw:
             viol = common.violation("C12", "codec", fl, "re-encode-differs", "library-encoded", "", f"decode+encode of a library-encoded {label} changes the bytes; case={case}")
+        elif _body_fields(back) != _body_fields(obj):
+            viol = common.violation("C12", "codec", fl, "body-fields", "library-encoded", "", f"{label}: encoder was given {str(_body_fields(obj))[:200]}, decoder returned {str(_body_fields(back))[:200]}")
         else:
             h2 = back.header
             exp = (hdr.version_minor, int(hdr.packet_type), int(hdr.packet_flags), len(raw), hdr.auth_len, hdr.call_id, drep)
